@@ -61,12 +61,14 @@ func checkC15(w *World, r *Report) {
 	r.Rule("C15.verdict", "P5", "the response with Valid=\"valid\" is dominated by the nil edge of the verifier's error; the verifier returns nil only on the nil edge of CheckSignature", 2)
 	r.Rule("C15.fields", "P8", "in the response, Signature, Algorithm, Certificate and Timestamp are sourced from the same-named fields of the stored record", 4)
 	r.Rule("C15.algtable", "P8", "every row of the module's table from stored algorithm names to x509 signature algorithms agrees with crypto/x509's meaning of the constant (key family, digest), names and algorithms are pairwise distinct, and each name spells the digest and key family of its row", 3)
+	r.Rule("C15.loopvar", "P4", "the module declares a Go version with one variable per loop: no address of such a variable (or of a field of it) and no function literal over it outlives the iteration in which it was taken (stored, put into a map, flowing out of the loop, deferred, handed to a function that stores it) - otherwise the matching element silently becomes the last element; positive and negative controls", 6)
 	r.Rule("C15.alglookup", "P5,P6", "the function that maps a stored algorithm name to an x509 algorithm returns, beside a nil error, only the algorithm of the table row whose name equals the name (the row's own field behind a dominating equality edge, a comma-ok map hit, or a constant under an equality test): no fuzzy match, no remembered pointer, no default", 1)
 	if !ro.checkFloors(r) {
 		return
 	}
 	algTableRule(w, r, "C15.algtable")
 	algLookupRule(w, r, "C15.alglookup")
+	loopVarRule(w, r, "C15.loopvar", "cfesignature")
 	pub := w.Func("x/cfesignature/keeper.msgServer.PublishReferencePayloadLink")
 	ver := w.Func("x/cfesignature/keeper.Keeper.VerifySignature")
 	// the verifier is found by what it does, not by its name: the module function called by the query below which
